@@ -143,6 +143,21 @@ type PContextRegexDefault interface {
 }
 
 // goverter:converter
+type PFormatOrder interface {
+	M1(source InFO) OutFO
+	M2(source InFO2) OutFO2
+}
+
+// ConvLast takes the converter interface as its last parameter (it lives next to the interface:
+// the command line leg keeps one converter per run and drops the rest of this file).
+func ConvLast(a int, c PFormatOrder) string { return "" }
+
+type InFO struct{ A int }
+type OutFO struct{ A string }
+type InFO2 struct{ A int }
+type OutFO2 struct{ A string }
+
+// goverter:converter
 type PEnumShared interface {
 	M1(source []Color) []Shade
 	M2(source map[string]Color) map[string]Shade
